@@ -197,6 +197,105 @@ def _caseid(r, p):
                     r.fail("C03.caseid", kk, "analysis computes the expected value from token %s but the fix writes %s" % (idx, recv), fix.loc())
     if callers < 2:
         raise AnalysisError("callers of check_for_case_violation not found")
+    _caseid_consistent(r, p)
+
+
+def _caseid_consistent(r, p):
+    """The three consistent-case families write another token's spelling.  Two shapes make that spelling equal to the
+    old text modulo case: (P1) a fold map  D[x.lower()] = x  looked up with  D[t.lower()]  where t is the value of the very
+    token the violation's region consists of; (P2) a value stored under a dominating test  v.lower() == w.lower()  with w
+    the value of the token the region consists of."""
+    # ---- P1 families
+    for mname in ("vsg.rules.consistent_interface_token_case", "vsg.rules.consistent_subprogram_parameter_token_case"):
+        mod = p.modules.get(mname)
+        if mod is None:
+            raise AnalysisError(mname + " vanished")
+        cv = p.functions.get(mname + ":create_violation")
+        va = p.functions.get(mname + ":validate_interface_name_in_token_list")
+        kk = mname + ":fold-map"
+        if cv is None or va is None:
+            r.fail("C03.caseid", kk, "create_violation / validate_interface_name_in_token_list not found: the value handed to the fix can no longer be traced", mod.path)
+            continue
+        problems = []
+        stores = [n for n in walk_function(cv.node) if isinstance(n, ast.Assign) and len(n.targets) == 1 and norm(n.targets[0]) == "dAction['value']"]
+        if len(stores) != 1 or not (isinstance(stores[0].value, ast.Subscript) and isinstance(stores[0].value.slice, ast.Call) and isinstance(stores[0].value.slice.func, ast.Attribute) and stores[0].value.slice.func.attr == "lower" and isinstance(stores[0].value.value, ast.Name) and isinstance(stores[0].value.slice.func.value, ast.Name)):
+            problems.append("dAction['value'] is not <map>[<token text>.lower()]")
+        else:
+            dname, tname = stores[0].value.value.id, stores[0].value.slice.func.value.id
+            if dname not in cv.params or tname not in cv.params:
+                problems.append("map and token text are not parameters of create_violation")
+            # region = extract_tokens(i, i)
+            ex = [n for n in walk_function(cv.node) if isinstance(n, ast.Call) and isinstance(n.func, ast.Attribute) and n.func.attr == "extract_tokens"]
+            if not (len(ex) == 1 and len(ex[0].args) == 2 and norm(ex[0].args[0]) == norm(ex[0].args[1]) and norm(ex[0].args[0]) in cv.params):
+                problems.append("the violation's region is not extract_tokens(i, i)")
+                iname = None
+            else:
+                iname = norm(ex[0].args[0])
+            # caller: loop over enumerate(lTokens), text = element.get_value(), map built as D[x.lower()] = x
+            calls = [n for n in walk_function(va.node) if isinstance(n, ast.Call) and isinstance(n.func, ast.Name) and n.func.id == "create_violation"]
+            for c in calls:
+                amap = {pn: a for pn, a in zip(cv.params, c.args)}
+                if dname in amap and tname in amap and iname in amap:
+                    dm, tx, ix = norm(amap[dname]), norm(amap[tname]), norm(amap[iname])
+                    loops = [l for l in walk_function(va.node) if isinstance(l, ast.For) and isinstance(l.iter, ast.Call) and norm(l.iter.func) == "enumerate" and isinstance(l.target, ast.Tuple) and norm(l.target.elts[0]) == ix and any(c is y for y in ast.walk(l))]
+                    if not loops:
+                        problems.append("the index passed to create_violation is not the enumerate index of the token loop")
+                        continue
+                    el = norm(loops[0].target.elts[1])
+                    if not any(isinstance(a, ast.Assign) and norm(a.targets[0]) == tx and norm(a.value) == "%s.get_value()" % el for a in ast.walk(loops[0])):
+                        problems.append("the text passed to create_violation is not the value of the loop's token")
+                    ws = [a for a in walk_function(va.node) if (isinstance(a, ast.Assign) and isinstance(a.targets[0], ast.Subscript) and norm(a.targets[0].value) == dm) or (isinstance(a, ast.Assign) and norm(a.targets[0]) == dm)]
+                    for a in ws:
+                        if isinstance(a.targets[0], ast.Subscript):
+                            if not (norm(a.targets[0].slice) == norm(a.value) + ".lower()"):
+                                problems.append("fold map written as %s" % norm(a)[:50])
+                        elif isinstance(a.value, ast.DictComp):
+                            if not (norm(a.value.key) == norm(a.value.value) + ".lower()"):
+                                problems.append("fold map built as %s" % norm(a.value)[:50])
+                        elif not (isinstance(a.value, ast.Dict) and not a.value.keys):
+                            problems.append("fold map assigned %s" % norm(a.value)[:40])
+                    if not ws:
+                        problems.append("fold map %s has no writer in validate_interface_name_in_token_list" % dm)
+                else:
+                    problems.append("create_violation call does not pass map, text and index")
+            if not calls:
+                problems.append("create_violation is never called")
+        if problems:
+            r.fail("C03.caseid", kk, "cannot show that the spelling written by this family equals the old text modulo case: %s" % "; ".join(sorted(set(problems))[:3]), cv.loc())
+        else:
+            r.ok("C03.caseid", kk, "value = foldmap[text.lower()] with foldmap[x.lower()] = x and text the value of the one token of the region")
+    # ---- P2 family
+    mod = p.modules.get("vsg.rules.consistent_case_utils")
+    ct = p.functions.get("vsg.rules.consistent_case_utils:create_tois")
+    an = p.functions.get("vsg.rules.consistent_token_case:consistent_token_case._analyze")
+    kk = "vsg.rules.consistent_token_case:fold-test"
+    problems = []
+    if ct is None or an is None:
+        raise AnalysisError("consistent_token_case anchors vanished")
+    from ..flow import Facts as _F
+
+    f = _F(ct.node)
+    sm = [n for n in walk_function(ct.node) if isinstance(n, ast.Call) and isinstance(n.func, ast.Attribute) and n.func.attr == "set_meta_data" and n.args and isinstance(n.args[0], ast.Constant) and n.args[0].value == "expected"]
+    if len(sm) != 1:
+        problems.append("create_tois stores 'expected' %d times" % len(sm))
+    else:
+        v = norm(sm[0].args[1])
+        conds = [t for t, pol in f.conds_at(sm[0]) if pol is True and ".lower() ==" in t and v + ".lower()" in t]
+        if not conds:
+            problems.append("the stored spelling is not dominated by a case-insensitive equality test")
+        else:
+            other = [x.strip() for x in conds[0].split("==")]
+            w = [x for x in other if not x.startswith(v + ".")][0].replace(".lower()", "")
+            wdef = [a for a in walk_function(ct.node) if isinstance(a, ast.Assign) and norm(a.targets[0]) == w]
+            news = [n for n in walk_function(ct.node) if isinstance(n, ast.Call) and norm(n.func).endswith("tokens.New")]
+            if not (wdef and norm(wdef[0].value).endswith(".get_value()") and news and norm(news[0].args[2]) == "[%s]" % norm(wdef[0].value)[: -len(".get_value()")]):
+                problems.append("the compared text is not the value of the one token the region consists of")
+    if not any(isinstance(a, ast.Assign) and norm(a.targets[0]) == "dAction['expected']" and isinstance(a.value, ast.Name) and any(isinstance(b, ast.Assign) and norm(b.targets[0]) == a.value.id and norm(b.value) == "oToi.get_meta_data('expected')" for b in walk_function(an.node)) for a in walk_function(an.node)):
+        problems.append("_analyze does not hand the region's 'expected' spelling to the fix unchanged")
+    if problems:
+        r.fail("C03.caseid", kk, "cannot show that the spelling written by consistent_token_case equals the old text modulo case: %s" % "; ".join(problems[:3]), ct.loc())
+    else:
+        r.ok("C03.caseid", kk, "expected spelling stored under `expected.lower() == own.lower()` for the one token of the region and passed on unchanged")
 
 
 def _top_group(e):
@@ -480,6 +579,12 @@ def _const_strs(a):
 
 
 VARIANTS = [
+    Variant("C03", "interface case rule maps by the stripped name", "fire",
+            [("vsg/rules/consistent_interface_token_case.py", "        dInterfaceMap[sInterfaceName.lower()] = sInterfaceName\n", "        dInterfaceMap[sInterfaceName.lower()] = sInterfaceName.strip(\"_\")\n")], rule="C03.caseid"),
+    Variant("C03", "consistent case rule accepts a prefix match", "fire",
+            [("vsg/rules/consistent_case_utils.py", "                    if sIdentifier.lower() == sName.lower():", "                    if sIdentifier.lower().startswith(sName.lower()):")], rule="C03.caseid"),
+    Variant("C03", "twin: interface fold map built with a comprehension", "silent",
+            [("vsg/rules/consistent_interface_token_case.py", "    lMyInterfacesLower = []\n    dInterfaceMap = {}\n    for sInterfaceName in lMyInterfaces:\n        lMyInterfacesLower.append(sInterfaceName.lower())\n        dInterfaceMap[sInterfaceName.lower()] = sInterfaceName\n", "    lMyInterfacesLower = [sInterfaceName.lower() for sInterfaceName in lMyInterfaces]\n    dInterfaceMap = {sInterfaceName.lower(): sInterfaceName for sInterfaceName in lMyInterfaces}\n")]),
     Variant("C03", "prefix and suffix exceptions matched on the whole value (overlap writes a longer name)", "fire",
             [("vsg/rules/case_utils.py", "        sActualPrefix = extract_prefix(sObjectValue, sDesiredPrefix)\n        sConstant = remove_prefix(sObjectValue, sActualPrefix)\n        if suffix_detected(sConstant, self.suffix_exceptions):\n            sDesiredSuffix = get_matched_suffix(sConstant, self.suffix_exceptions)\n            sActualSuffix = extract_suffix(sConstant, sDesiredSuffix)\n            sConstant = remove_suffix(sConstant, sActualSuffix)\n",
               "        sDesiredSuffix = get_matched_suffix(sObjectValue, self.suffix_exceptions)\n        sConstant = remove_suffix(remove_prefix(sObjectValue, sDesiredPrefix), sDesiredSuffix)\n")], rule="C03.caseid"),
